@@ -13,10 +13,13 @@
    years and in the month lengths (Proofs/C06Rebuild.v: ymd2ord is linear in the day, one month back is dbm_step).
    rs_precise_diff takes the two operands only (since the repair of finding rs-second-operand-subclass): the compiled helper tests
    both with is_type_of, so every pd_rust_* theorem below holds whatever datetime subclass (e.g. pendulum.DateTime) either operand
-   is an instance of — there is no "second operand is exactly datetime.datetime" side condition any more. *)
+   is an instance of — there is no "second operand is exactly datetime.datetime" side condition any more.
+   The Interval model (iv_elapsed / iv_components over precise_diff of the two operands, each with its OWN offset) is what Interval.__init__
+   does for either occurrence of a repeated wall time since the repair of finding interval-init-drops-fold (listed for C18): the natives it
+   hands to precise_diff carry the fold of the endpoints (iv_former_second_occurrence_witness; stream interval-second-occurrence). *)
 From Coq Require Import ZArith Bool.
 From PV Require Import Lib.PyBase Spec.Cal Gen.Helpers Model.RustHelpers Model.PdBase Gen.PreciseDiff Model.RustPreciseDiff Model.PdInterval.
-From PV Require Import Proofs.C06Facts Proofs.C06Spec Proofs.C06Dates Proofs.C06Rebuild Proofs.C06Interval Proofs.C06Rust Proofs.C06Thms.
+From PV Require Import Proofs.C06Facts Proofs.C06Spec Proofs.C06Dates Proofs.C06Rebuild Proofs.C06Interval Proofs.C06Rust Proofs.C06Thms Proofs.C06Fold.
 Open Scope Z_scope.
 
 (* years >= 0, months 0..11, days 0..30, hours 0..23, minutes/seconds 0..59, microseconds 0..999999 *)
@@ -155,6 +158,18 @@ Theorem pd_rust_former_subclass_witness :
   rebuilds (utc_named_dt 2021 1 1 10 0 0 0) (utc_named_dt 2021 1 1 12 30 0 0) (mkPD 0 0 0 2 30 0 0 0).
 Proof. exact former_subclass_witness. Qed.
 Print Assumptions pd_rust_former_subclass_witness.
+
+(* the former witness of finding interval-init-drops-fold (listed for C18, repaired): 2012-10-28T01:19:59Z -> the SECOND 02:20:00 in
+   Europe/Paris (+01:00), one second later: one second, both backends, both directions (the Interval reported minutes = -59 when
+   Interval.__init__ rebuilt its natives without fold= and the end was read as 02:20:00+02:00) *)
+Theorem iv_former_second_occurrence_witness :
+  let a := utc_named_dt 2012 10 28 1 19 59 0 in let b := paris_second_0220 in
+  p_instant b - p_instant a = 1000000 /\
+  py_precise_diff a b = Ok (mkPD 0 0 0 0 0 1 0 0) /\ rs_precise_diff a b = mkPD 0 0 0 0 0 1 0 0 /\
+  py_precise_diff b a = Ok (mkPD 0 0 0 0 0 (-1) 0 0) /\ rs_precise_diff b a = mkPD 0 0 0 0 0 (-1) 0 0 /\
+  iv_components (mkPD 0 0 0 0 0 1 0 0) (iv_elapsed a b) = mkivc 0 0 0 0 0 0 1 0 0 0.
+Proof. exact former_second_occurrence_witness. Qed.
+Print Assumptions iv_former_second_occurrence_witness.
 
 (* current code: outside the zero-offset domain the two backends differ (cross-zone pair whose UTC shift leaves the month) *)
 Theorem pd_rust_eq_python_cross_zone_refuted : exists a b,
